@@ -378,6 +378,22 @@ pub fn take_events() -> Vec<Event> {
     untracked(|| with_state(|s| std::mem::take(&mut s.events)))
 }
 
+/// Descriptions of the recorded memory events, without consuming them (for
+/// the hang monitor).
+pub fn describe_events() -> Vec<String> {
+    untracked(|| {
+        with_state(|s| {
+            s.events
+                .iter()
+                .map(|e| match e {
+                    Event::FreedWhileHeld { hold, block } => format!("block {:#x}+{} freed while the kernel holds {} {:#x}+{}", block.addr, block.size, hold.what, hold.addr, hold.len),
+                    Event::ForeignFree { addr, size } => format!("free of {addr:#x} (size {size}) which is not a live block (double free)"),
+                })
+                .collect()
+        })
+    })
+}
+
 pub fn has_events() -> bool {
     untracked(|| with_state(|s| !s.events.is_empty()))
 }
